@@ -38,6 +38,11 @@ func verifListenPacket(network, address string) (net.PacketConn, error) {
 	if verifListenFault {
 		return nil, errVerifFault
 	}
+	if verifTargetDeadlines {
+		pc := newVerifDeadlinePC(&net.UDPAddr{IP: net.IPv4(192, 0, 2, 1), Port: 22000 + len(verifDeadlineTargets)})
+		verifDeadlineTargets = append(verifDeadlineTargets, pc)
+		return pc, nil
+	}
 	if verifTargetBlocking {
 		pc := &verifChanPC{in: make(chan verifRead), closedCh: make(chan struct{}), expireCh: make(chan struct{}), local: &net.UDPAddr{IP: net.IPv4(192, 0, 2, 1), Port: 21000 + len(verifChanTargets)}}
 		verifChanTargets = append(verifChanTargets, pc)
@@ -752,9 +757,9 @@ func VH_C14_junk_on_association() {
 		t := verifTargets[0]
 		// before the shutdown the deadline never moved earlier, whatever the junk did to it
 		verifAssert("C14.junk.both-valid-datagrams-forwarded", len(t.writes) == 2)
-		verifAssert("C14.junk.some-deadline-armed", len(t.deadlines) >= 1)
+		verifAssert("C14.impl.junk.some-deadline-armed", len(t.deadlines) >= 1)
 		for i := 1; i+1 < len(t.deadlines); i++ {
-			verifAssert("C14.junk.deadline-never-earlier", !t.deadlines[i].Before(t.deadlines[i-1]))
+			verifAssert("C14.impl.junk.deadline-never-earlier", !t.deadlines[i].Before(t.deadlines[i-1]))
 		}
 	}
 	verifReach("C14.junk.done", true)
